@@ -23,7 +23,10 @@ nested-graph node were not validated; constructor `buildGraphSkipGraph`).  The r
 one name are exclusive only if neither can run without its branch" (`d3b936a`) keeps the pre-repair
 branch sets (`exclSetsReach` / `expandedGroupsReach`: every node reachable from one target only) and the
 constructor using them (`buildGraphMutexReach`); the repair "strict_types checks every producer of a value
-against its consumer" (`9cb1903`) keeps `chkTypesFirstProducer` (constructor `buildGraphFirstProducer`).
+against its consumer" (`9cb1903`) keeps `chkTypesFirstProducer` (constructor `buildGraphFirstProducer`);
+its follow-up "the consumer itself is no longer skipped among the producers" (`07d3d31`) keeps
+`chkTypesSkipSelf` (no constructor of its own: `runChecks (checksUntyped ++ [chkTypesSkipSelf])`, with
+`checksUntyped` of `HG/Lemmas/Build.lean`).
 
 ## What is data of the model and what is a precondition (node-level constructors, not `Graph`)
 The input is the list of *elaborated* nodes (`NodeD`, what `Graph` reads off each `HyperNode`).  The
@@ -543,25 +546,53 @@ def dataSourcesOf (nodes : List NodeD) (v : Name) : List Name :=
   (nodes.filter fun n => n.dataOuts.contains v).map (·.name)
 
 /-- the sources `checked` lists for the value `v` on the edge `e`: the edge's own source first, then every
-OTHER data producer of `v` (`other not in (source_name, target_name)`) in node order -/
+OTHER data producer of `v` (`other != source_name`) in node order.  Since the repair `07d3d31` the consumer
+itself is no longer skipped among the producers (it used to be `other not in (source_name, target_name)`,
+kept as `typeSourcesForSkipSelf`): a node that reads AND writes the name — an accumulator — has its own
+output typed against its own parameter whatever the node order. -/
 def typeSourcesFor (b : BuildInput) (e : Edge) (v : Name) : List Name :=
+  e.src :: (dataSourcesOf b.nodes v).filter fun o => o != e.src
+
+/-- `typeSourcesFor` before repair `07d3d31` (`other not in (source_name, target_name)`): the consumer itself
+was skipped among the other producers of the value.  Kept for the negative witness
+`HG.C19s.flaw_self_feed_unchecked_witness`; not part of `checks`. -/
+def typeSourcesForSkipSelf (b : BuildInput) (e : Edge) (v : Name) : List Name :=
   e.src :: (dataSourcesOf b.nodes v).filter fun o => o != e.src && o != e.dst
 
-/-- the values of one edge against EVERY producer that can deliver them to the edge's target -/
+/-- the values of one edge against EVERY producer that can deliver them to the edge's target (the target
+itself included, when it also produces the value) -/
 def chkTypesEdgeProducers (b : BuildInput) (e : Edge) : Option BuildErr :=
   e.values.findSome? fun v => (typeSourcesFor b e v).findSome? fun s => chkTypesTriple b s e.dst v
+
+/-- `chkTypesEdgeProducers` before repair `07d3d31`: the sources are `typeSourcesForSkipSelf`, so the
+edge's target is never typed against itself.  Not part of `checks`. -/
+def chkTypesEdgeProducersSkipSelf (b : BuildInput) (e : Edge) : Option BuildErr :=
+  e.values.findSome? fun v => (typeSourcesForSkipSelf b e v).findSome? fun s => chkTypesTriple b s e.dst v
 
 /-- `_validate_types`: every edge with `value_names` EXCEPT the ordering edges (`edge_type ==
 "ordering"`, which `_add_ordering_edges` labels with the awaited name): no value reaches a parameter
 through an ordering edge, there is nothing to type.  The built graph links a consumer to the FIRST-listed
 producer of a name only; every other data producer of the value is checked against the consumer as well
-(repair "strict_types checks every producer of a value against its consumer", `9cb1903`).  The code first
+(repair "strict_types checks every producer of a value against its consumer", `9cb1903`).  A second repair,
+`07d3d31`: the consumer itself is no longer skipped among the producers (`other != source_name` instead of
+`other not in (source_name, target_name)`), so a node that reads and writes the same name is typed against
+itself (`HG.C19s.self_feed_checked`).  The code first
 collects the triples (per edge in `G.edges` order, per value: the edge's own, then the other producers in
 node order) and then checks them in that order: the nested `findSome?` visits them in the same order. -/
 def chkTypes (b : BuildInput) : Option BuildErr :=
   if b.strict then
     (nxOrder b.nodes (graphEdges b)).findSome? fun e =>
       if e.kind == .ordering then none else chkTypesEdgeProducers b e
+  else none
+
+/-- `_validate_types` before repair `07d3d31` (and after `9cb1903`): every other producer of a value is
+checked against the consumer EXCEPT the consumer itself, so a self-feeding node (parameter and data output
+of the same name, differently annotated) listed after the first producer went unchecked.  Kept for the
+negative witness `HG.C19s.flaw_self_feed_unchecked_witness`; not part of `checks`. -/
+def chkTypesSkipSelf (b : BuildInput) : Option BuildErr :=
+  if b.strict then
+    (nxOrder b.nodes (graphEdges b)).findSome? fun e =>
+      if e.kind == .ordering then none else chkTypesEdgeProducersSkipSelf b e
   else none
 
 /-- `_validate_types` before the repair "strict_types checks every producer of a value against its
